@@ -976,3 +976,10 @@ Proof.
     destruct (find (edges_ok tol) (rev ls)); [reflexivity|]. cbn [find].
     destruct (edges_ok tol l); reflexivity.
 Qed.
+
+(* ========================================================================================== samples that are not numbers *)
+Lemma bin_index_f_non_finite edges est v : v = NaN \/ v = PInf \/ v = NInf -> bin_index_f edges est v = None.
+Proof. intros [H|[H|H]]; subst v; reflexivity. Qed.
+Lemma bin_index_f_finite edges est m e :
+  bin_index_f edges est (Fin m e) = bin_index edges est (Q2Qc (q_of_fin m e)).
+Proof. reflexivity. Qed.
